@@ -123,8 +123,10 @@ func optStr(t *rapid.T, f *fields, key, label string, vals []string, absentW int
 	f.add(key, jstr(rapid.SampledFrom(vals).Draw(t, label)))
 }
 
-var digitSpell = []string{"6", "8", "9", "10", "6", "8", "7", "six", "", "06"}
-var algoSpell = []string{"SHA1", "SHA256", "SHA512", "SHA1", "SHA256", "SHA512", "sha1", "MD5", ""}
+// documented spellings, and near-spellings of every value (other case, separators, padding):
+// whatever the library makes of them, the service must make the same of them on every endpoint
+var digitSpell = []string{"6", "8", "9", "10", "6", "8", "7", "six", "", "06", "08", " 8", "8 ", "+8", "010", "8.0", "eight"}
+var algoSpell = []string{"SHA1", "SHA256", "SHA512", "SHA1", "SHA256", "SHA512", "sha1", "MD5", "", "sha256", "sha512", "Sha512", "SHA-256", "SHA_512", " SHA256", "SHA256 ", "sha-1"}
 
 func genOTPBody(t *rapid.T, ep string, omitTS bool) (string, *CodeSpec) {
 	f := &fields{}
